@@ -482,7 +482,28 @@ def exec_for(eng, s, fr):
             for lab, fn in spec["yields"]:
                 eng.prove(f"{pre}/yields/{lab}", fn(eng, _visible(fr), list(sink.items[m0:]), k), "yields")
         fr.vars[kname] = eng.snum(k.z + 1, "int")
+        mark = len(eng.pc)
         check_invs(eng, spec, fr, old_vars, entry_vars, pre, "preserved")
+        if spec.get("lookahead"):
+            # loop contract option lookahead=True (2-induction for the body's own obligations): the NEXT iteration is executed
+            # as well, from the state the body really produced -- what the invariant obligations above added as hypotheses is
+            # dropped again -- so that the externally meaningful obligations inside the body (assertions of the contract's ghost
+            # code, preconditions of calls, safety, exception flow) are also proved one iteration after an arbitrary state
+            # satisfying the invariant.  On a carrier whose body no longer re-establishes an (internal) invariant this tells
+            # whether a step claim of the property itself breaks.  Nothing is assumed: obligations of equal name are merged.
+            if sink is not None:
+                raise Unsupported("lookahead in a yielding invariant-cut loop")
+            del eng.pc[mark:]
+            k1 = eng.snum(k.z + 1, "int")
+            if eng.branch(eng.sbool(to_z3(k1, "int") < nz)):
+                eng.assign(s.target, getter(k1), fr)
+                eng.in_lookahead = getattr(eng, "in_lookahead", 0) + 1
+                try:
+                    eng.exec_block(s.body, fr)
+                except (ContinueSig, BreakSig):
+                    pass
+                finally:
+                    eng.in_lookahead -= 1
         raise PathEnd()
     if sink is not None:
         sink.items.append(LoopYields(o, n, [lab for lab, _ in spec["yields"]]))
